@@ -7,6 +7,10 @@ BASE = json.load(open("/root/.vp/BASELINE.json"))["cmd"] if Path("/root/.vp/BASE
     "cd /repo && /venv/bin/python -m pytest -ra -q -p no:cacheprovider --timeout=900 --continue-on-collection-errors --junitxml=<file>"
 
 CHECKS = {
+ "C18": dict(cat="exploration", ref="§C18",
+    tech="property-based testing (Hypothesis): generated models x instances; oracle = exec of the rendered source in an empty namespace + structural equality",
+    text="Generated search over binding models (inner classes, nested and mixin enums, inheritance, frozen/tuple models, generic elements, attribute maps, non-empty default factories) and instances with every documented value type; the rendered Python source must run in an empty namespace (imports sufficient) and bind the requested variable to a structurally equal object. Searched, not proved.",
+    note="Model modules are registered in sys.modules so emitted imports can resolve; structural equality is the harness's own (list vs tuple, bool vs int, NaN, signed zero)."),
  "C04": dict(cat="exploration", ref="§C04",
     tech="property-based testing (Hypothesis): generated models x instances x {dict,filter-none} x {DictEncoder/Decoder, JsonSerializer/Parser}; round-trip oracle + JSON-native walk + json.dumps/loads differential",
     text="Generated search over binding models with an unambiguous dictionary image, instances and routes; oracles: decode(encode(x)) structurally equals x, the encoded structure is JSON-native and survives json.dumps/json.loads. A dedicated family exercises the documented best-match scoring between candidate models. Searched, not proved.",
